@@ -1573,6 +1573,11 @@ class Stage:
         cat = vcat if transpose else hcat
         res = cat(sub_expr)
         time = stage._method.control_grid
+        if not include_last or not include_first:
+            # One time stamp per sampled point (e.g. grid='control-' has N points)
+            time = ca.vec(time)
+            if not include_last: time = time[:-1]
+            if not include_first: time = time[1:]
         return time, res
 
     def _grid_integrator(self, stage, expr, grid, include_first=True, include_last=True):
